@@ -113,6 +113,21 @@ func workRoot() string {
 	return d
 }
 
+// pluginPath is the protoc-gen-go binary built from the working tree with the
+// runtime seam (C40 only).
+var pluginPath string
+
+func buildPlugin(b *buildsys.Build, dir string) int {
+	out := filepath.Join(dir, "protoc-gen-go")
+	msg, err := buildsys.BuildWorker(b, out, false, nil, "google.golang.org/protobuf/cmd/protoc-gen-go")
+	if err != nil {
+		fmt.Fprintf(os.Stderr, "pbsim: building protoc-gen-go from the working tree failed:\n%s\n", msg)
+		return 2
+	}
+	pluginPath = out
+	return 0
+}
+
 type built struct {
 	cfg buildCfg
 	bin string
@@ -158,6 +173,9 @@ func workerEnv(dir string, off int) []string {
 		out = append(out, e)
 	}
 	rl := filepath.Join(dir, fmt.Sprintf("race-%d", off))
+	if pluginPath != "" {
+		out = append(out, "PBSIM_PLUGIN="+pluginPath)
+	}
 	out = append(out, "GOMAXPROCS=1", "PBSIM_RACELOG="+rl, "GORACE=log_path="+rl+" halt_on_error=0 history_size=2", "PBSIM_WORKDIR="+dir, "PBSIM_MAPSEED=1")
 	return out
 }
@@ -191,9 +209,14 @@ func check(id, tier string) int {
 			plan.Secs = v
 		}
 	}
-	builds, _, code := buildAll(dir, plan.Builds)
+	builds, bld, code := buildAll(dir, plan.Builds)
 	if code != 0 {
 		return code
+	}
+	if p.Plugin {
+		if code := buildPlugin(bld, dir); code != 0 {
+			return code
+		}
 	}
 	nw := runtime.NumCPU()
 	if s := os.Getenv("PBSIM_WORKERS"); s != "" {
@@ -506,9 +529,14 @@ func max64(a, b int64) int64 {
 
 func buildFor(s *scn.Scn, dir string) (built, int) {
 	cfg := buildCfg{Race: s.Race, Tags: s.Tags, Share: 1}
-	bs, _, code := buildAll(dir, []buildCfg{cfg})
+	bs, bld, code := buildAll(dir, []buildCfg{cfg})
 	if code != 0 {
 		return built{}, code
+	}
+	if p, ok := props[s.Property]; ok && p.Plugin {
+		if code := buildPlugin(bld, dir); code != 0 {
+			return built{}, code
+		}
 	}
 	return bs[0], 0
 }
